@@ -185,6 +185,7 @@ func c18Scenarios(tier string) []*Scenario {
 	mk("2w-1f", 2, 2, []int{2}, false, 1, 1)
 	mk("2w-1f-unsub", 2, 2, []int{5}, true, 1, 1)
 	mk("1w-2f", 1, 3, []int{1, 3}, false, 2, 1)
+	mk("1w-2f-unsub", 1, 2, []int{0, 2}, true, 1, 1)
 	scs = append(scs, c18wsScenarios(tier)...)
 	if tier == "thorough" {
 		mk("2w-2f", 2, 3, []int{0, 2}, true, 2, 1)
